@@ -82,7 +82,7 @@ class LockFlow:
                 return frozenset(st)
             if cls in MUTEX_CLASSES:
                 m = mutex_identity(self.facts, n.get("obj"))
-                if m and short in ("lock", "tryLock", "try_lock"):
+                if m and short in ("lock",):   # tryLock()/try_lock() may fail: the mutex is not known to be held afterwards
                     st.add((m, "direct"))
                     self._op(key, "acquire", m, "direct", n)
                 elif m and short == "unlock":
